@@ -162,7 +162,8 @@ theorem abort_realloc_basic {cfg : Cfg} {w w4 : World α} {c ncap : Nat} (hv : V
         rw [this] at hl'
         exact List.eq_nil_of_length_eq_zero (by simpa using hl')
     refine ⟨hvec, hled, by subst hw5; exact hb.ub, ?_⟩
-    refine ⟨fun d _ => by rw [hh5], by rw [hh5], by rw [hh5], ?_, ?_, ?_, Or.inl (by rw [hh5])⟩
+    refine ⟨fun d _ => by rw [hh5], by rw [hh5], by rw [hh5], ?_, ?_, ?_, Or.inl (by rw [hh5]),
+            LiveAcc.of_same hl hv hlive5 (by rw [hh5])⟩
     · intro b h1 _ h3 _
       have hbn : b ≠ w.next := by omega
       apply mem_eq_of_slots (hlen b hbn)
@@ -467,7 +468,7 @@ theorem resizeWith_sat (cfg : Cfg) (c newSize : Nat) (s : Src α) (w : World α)
     have her := eraseToEnd_sat cfg c 0 w1 h1.basic.vec h1.basic.led (Nat.zero_le _)
     refine Res.sat_mono her (fun _ w2 h2 => ?_) (fun _ _ h => h.elim)
     show Resized cfg w w2 c 0 (srcVal w s)
-    refine ⟨h1.basic.trans h2.basic, ?_, ?_, by rw [h2.alloc, h1.alloc], fun _ => ⟨by rw [h2.data, h1.data], by rw [h2.cap, h1.cap],
+    refine ⟨Basic.trans hl hv h1.basic h2.basic, ?_, ?_, by rw [h2.alloc, h1.alloc], fun _ => ⟨by rw [h2.data, h1.data], by rw [h2.cap, h1.cap],
             by rw [h2.noalloc.1, h1.noalloc.1], by rw [h2.noalloc.2, h1.noalloc.2]⟩⟩
     · intro xs hx
       have := h2.holds _ (h1.holds xs hx)
